@@ -149,7 +149,16 @@ class Model:
     """Line-oriented access to the extracted model."""
 
     def __init__(self, exe):
-        self.p = subprocess.Popen([exe], stdin=subprocess.PIPE, stdout=subprocess.PIPE, text=True, bufsize=1 << 20)
+        def big_stack():
+            # extracted list functions are not tail-recursive: 64 KB payloads need more than the default 8 MB stack
+            import resource
+            soft, hard = resource.getrlimit(resource.RLIMIT_STACK)
+            try:
+                resource.setrlimit(resource.RLIMIT_STACK, (hard, hard))
+            except (ValueError, OSError):
+                pass
+        self.p = subprocess.Popen([exe], stdin=subprocess.PIPE, stdout=subprocess.PIPE, text=True, bufsize=1 << 20,
+                                  preexec_fn=big_stack)
         self.calls = 0
 
     @staticmethod
